@@ -11,6 +11,7 @@ import (
 
 	hcl "Havoc/pkg/profile/yaotl"
 	"Havoc/pkg/profile/yaotl/hclsyntax"
+	"Havoc/pkg/profile/yaotl/hclwrite"
 
 	"github.com/zclconf/go-cty/cty"
 	"github.com/zclconf/go-cty/cty/function"
@@ -349,6 +350,12 @@ var (
 
 func newKeeper() *keeper {
 	k := &keeper{}
+	if prevCaseResult == nil {
+		// first case of the process (also: a replay): a fixed serialisation stands in
+		// for the previous case, so that a single case reproduces on its own
+		b := hclwrite.Format([]byte("warm_up = 1\n"))
+		prevCaseResult = &kept{from: "Format", b: b, s: string(b)}
+	}
 	if prevCaseResult != nil {
 		it := *prevCaseResult
 		it.from += "@previous-case"
